@@ -3,6 +3,7 @@ import importlib
 import math
 import warnings
 from fractions import Fraction
+from pathlib import Path
 
 import numpy as np
 
@@ -11,60 +12,86 @@ from ..common import Ctx, Tokens, b2f, close, driver_batch, f2b, fvec
 LEVEL = "proof"
 LEVEL_TEXT = (
     "Lean theorems over the reals, for every admissible n: trapezoid/midpoint (degree <= 1) and Simpson (degree <= 3, odd n) "
-    "integrate every polynomial of that degree exactly; Fejer-1 and Clenshaw-Curtis as coded (series length, denominators, "
-    "frequencies and the last-coefficient patch taken from the regenerated source) integrate every polynomial of degree <= n-1 exactly; Gauss-Chebyshev-1 under the closed-form chebgauss contract, and "
-    "the weight division / reversal the repository adds to any Gauss rule (Legendre, Chebyshev-2, Laguerre, alpha > -1) keep "
+    "integrate every polynomial of that degree exactly -- stated about the constructors as regenerated entry by entry from the "
+    "source (every assignment, slice update, guard, length, domain of Trapezoidal, Simpson, MidPoint, UniformInteger, "
+    "GaussChebyshevLobatto, RectangleRuleSineEndPoints); Fejer-1 and Clenshaw-Curtis as coded (series length, denominators, "
+    "frequencies and the last-coefficient patch taken from the regenerated source) integrate every polynomial of degree <= n-1 "
+    "exactly; Gauss-Chebyshev-1 under the closed-form chebgauss contract and Gauss-Chebyshev-2 under the closed-form "
+    "roots_chebyu contract (nodes cos(k pi/(n+1)), weights pi/(n+1) sin^2; discrete sine orthogonality) are exact up to degree "
+    "2n-1; the weight division / reversal the repository adds to any Gauss rule (Legendre, Laguerre, alpha > -1) keeps "
     "exactness up to degree 2n-1 (external nodes by contract GaussExact); for the 7 variable-substitution rules the generated "
     "weight expression is step x derivative of the generated node map at the node (HasDerivAt), nodes strictly ascending and "
     "inside the declared domain; closed-form rules have n ascending nodes in the domain; _derg2/_derg3/_dergstrip are the "
-    "derivatives of _g2/_g3/_gstrip, g(+-1)=+-1, g'>0. Fejer-2 as coded is not exact (negation proved at n=2; known finding). "
-    "Not proved (kept as `_full` statements, decided by the oracle): Fejer-2 exactness (false for the code), monotonicity / end-point "
-    "limit of the strip map."
+    "derivatives of _g2/_g3/_gstrip, g(+-1)=+-1, g'>0; the strip map fixes +-1, is strictly increasing on [-1,1] for every "
+    "rho > 1 and the np.isclose branch of _dergstrip is the one-sided limit of the derivative (gstrip_shape), so the strip "
+    "transformations keep n ascending nodes in [-1,1]. Fejer-2 (known finding) is characterised for every n: the hand-written "
+    "rule with the complete sine series is exact on degree <= n-1 (fejer2_corrected_exact); the weights of the code are those "
+    "minus the contribution of the term j = (n+1)//2 (fejer2_code_weights_defect); on the Chebyshev-U basis the code loses "
+    "exactly the component of degree m* = 2((n+1)//2) - 2 (fejer2_code_defect), hence is not exact for any n >= 2 "
+    "(fejer2_code_not_exact) and exact below m* (fejer2_code_exact_below)."
 )
-TECHNIQUE = "Lean 4 proof over R on formulas/bounds regenerated from the source + differential correspondence of all 26 constructors + exact-moment oracle"
+TECHNIQUE = "Lean 4 proof over R on constructors/formulas/bounds regenerated from the source + differential correspondence of all 26 constructors (repeated, interleaved, mutated, typed inputs) + exact-moment oracle"
 GEN = ["onedgrid"]
 LEAN_MODULES = [
     "GridVerif.Props.C01.NewtonCotes",
     "GridVerif.Props.C01.Fejer",
+    "GridVerif.Props.C01.Fejer2",
     "GridVerif.Props.C01.ClenshawCurtis",
     "GridVerif.Props.C01.Gauss",
+    "GridVerif.Props.C01.GaussCheb2",
     "GridVerif.Props.C01.Subst",
     "GridVerif.Props.C01.Closed",
+    "GridVerif.Props.C01.Strip",
     "GridVerif.Props.C01.Shape",
+    "GridVerif.Props.C01.StripShape",
 ]
 _T = {
     "NewtonCotes": ["trapezoid_exact", "midpoint_exact", "simpson_exact"],
     "Fejer": ["fejer1_gen_facts", "fejer1_exact_T", "fejer1_exact", "fejer2_weights_two", "fejer2_fails_at_2"],
+    "Fejer2": ["fejer2_series_U", "fejer2_corrected_exact_U", "fejer2_corrected_exact", "fejer2_corrected_make",
+               "fejer2_gen_facts", "fejer2_code_weights_defect", "fejer2_code_U", "fejer2_code_defect",
+               "fejer2_code_not_exact", "fejer2_code_exact_below"],
     "ClenshawCurtis": ["cc_gen_facts", "clenshawcurtis_exact_T", "clenshawcurtis_exact"],
     "Gauss": ["gauss_weight_division", "quad_reverse_points_only", "gausslegendre_exact", "gausscheb2_exact",
               "gausslaguerre_exact", "gausscheb1_exact"],
+    "GaussCheb2": ["integral_sqrt_mul_U", "chebyu_gaussExact", "gausscheb2_closed_exact"],
     "Subst": [f"{c}_{t}" for c in ("tanhsinh", "expsinh", "logexpsinh", "expexp", "singletanh", "singleexp", "singlearcsinhexp")
               for t in ("weight_is_step_times_deriv", "strictMono", "shape")] + ["tanhsinh_in_domain"],
     "Closed": ["derg2_is_deriv_g2", "derg3_is_deriv_g3", "g2_endpoints", "g3_endpoints", "derg2_pos", "derg3_pos",
                "dergstrip_is_deriv_gstrip"],
+    "Strip": ["gstrip_cn_pos", "gstrip_endpoints", "gstrip_strictMonoOn", "dergstrip_end_is_limit",
+              "dergstrip_end_is_limit_left", "gstrip_shape"],
     "Shape": ["trapezoidal_shape", "simpson_shape", "midpoint_shape", "rectanglesine_shape", "uniforminteger_shape",
               "chebyshevlobatto_shape", "clenshawcurtis_shape", "fejerfirst_shape", "fejersecond_shape",
               "chebyshevlobatto_weights_formula", "rectanglesine_weights_formula",
               "trefethen_poly_shape", "trefethen_poly_reject", "trefethencc_shape"],
+    "StripShape": ["trefethen_strip_shape", "trefethenstripcc_shape"],
 }
 THEOREMS = [f"GridVerif.C01.{t}" for ts in _T.values() for t in ts]
 RULE = (
-    "correspondence: each of the 26 constructors x every npoints in -1..40 plus sampled npoints <= 400 (odd and even) x "
-    "default and random extra parameters (delta, h, alpha, d, rho, base quadrature) incl. rejected ones, constructor vs "
-    "Lean model at Float (Gauss nodes of NumPy/SciPy fed to the model); plus every generated function/bound vs the "
-    "Python expression it came from; non-trivial = accepted rule with n >= 3 and, for parametrised rules, a non-default parameter"
+    "correspondence: each of the 26 constructors x every npoints in -1..40 plus sampled npoints <= 400 (odd and even) and "
+    "npoints = 2000/2001 for the rules without an eigenvalue solve x default and random extra parameters (delta, h, alpha, d, "
+    "rho, base quadrature) incl. rejected ones and the edges of their ranges (h from 5e-324 to 800, alpha from -1+1ulp to 1000, "
+    "rho from 1+1ulp to 1e300 and <= 1, d of every kind), constructor vs Lean model at Float (Gauss nodes of NumPy/SciPy fed to "
+    "the model); npoints as np.int64/int32/intp/bool/float/np.float64/0-d array, parameters as np.float64/np.int64/bool/0-d "
+    "array, keyword and positional; a schedule in which every constructor call occurs three times, interleaved with the other "
+    "classes and other sizes, every object compared when built and again at the end, no two objects sharing memory, and a "
+    "rebuild after the arrays of an earlier object were overwritten in place; plus every generated function/bound vs the "
+    "Python expression it came from and the hand-written corrected Fejer-2 vs exact moments and vs implementation + missing "
+    "term; non-trivial = accepted rule with n >= 3 and, for parametrised rules, a non-default parameter"
 )
 TRUSTED_BASE = [
     "Lean 4.33 kernel; axioms propext, Classical.choice, Quot.sound only (audited per theorem)",
-    "translator harness/translate/onedgrid.py (AST -> Gen/OneDFormulas.lean; self-checked at Float against the source expressions on every run)",
-    "hand model Model/OneD.lean of the 26 constructors and OneDGrid.__init__, tied by correspondence",
+    "translator harness/translate/onedgrid.py (AST -> Gen/OneDFormulas.lean; self-checked at Float against the source expressions on every run; the six entry-wise constructors through the constructor comparison)",
+    "hand model Model/OneD.lean: assembly of the generated entries, the series rules, Gauss wrappers, Trefethen dispatch and OneDGrid.__init__, tied by correspondence",
+    "hand-written FejerSecondCorrected (the complete sine series): not a model of the code; tied to its definition by exact moments and to the implementation by 'implementation + missing term'",
     "Elem R instance (which real function each NumPy name denotes)",
-    "NumPy/SciPy Gauss nodes (leggauss, chebgauss, roots_chebyu, roots_genlaguerre): contract GaussExact, not verified",
+    "NumPy/SciPy Gauss nodes: leggauss, roots_genlaguerre by contract GaussExact (not verified); chebgauss, roots_chebyu by their closed forms (stated as hypotheses, compared numerically by the oracle)",
 ]
 ASSUMPTIONS = [
-    "npoints is a Python int; extra parameters are finite floats",
+    "npoints is an integer (Python or NumPy signed integer of at least 32 bits, bool) -- a float is either rejected or treated as its integer value; extra parameters are real numbers held in binary64 (NumPy float32 scalars lose precision: listed finding)",
     "rounding is not modelled: theorems are exact over R, the correspondence uses rtol 1e-11..1e-9 (1e-6 where |k*h| > 6 saturates tanh/exp)",
-    "a NaN among the points disables OneDGrid's domain check in NumPy (np.min), not in the model; not generated",
+    "a NaN among the points disables OneDGrid's domain check in NumPy (np.min), not in the model; generated only where every point is NaN or inside the domain",
 ]
 
 # ----------------------------------------------------------------------------------------------
@@ -110,6 +137,8 @@ def _impl(fn):
             return "type-error"
         except RuntimeError:
             return "runtime-error"
+        except IndexError:
+            return "index-error"
     dom = g.domain
     return (np.asarray(g.points, dtype=float), np.asarray(g.weights, dtype=float), float(dom[0]), float(dom[1]))
 
@@ -177,9 +206,13 @@ def _cases(ctx: Ctx):
                 add(cls, n, f"C01.make {cls} {n} {f2b(h)}", (lambda c=cls, n=n, h=h: getattr(og, c)(n, h)),
                     n >= 3 and h != dflt, cls, rtol=(1e-11 if kh <= 6 else 1e-6), elementwise=True)
         # Gauss wrappers
+        # eigenvalue solves (leggauss, roots_genlaguerre) are O(n^3): quick tier keeps them at n <= 160
+        eig_ok = ctx.thorough or n <= 160
         for cls in GAUSS:
+            if cls == "GaussLegendre" and not eig_ok:
+                continue
             add(cls, n, f"C01.make {cls} {n} " + gv(_gauss_for(cls, n)), (lambda c=cls, n=n: getattr(og, c)(n)), n >= 3, cls, rtol=1e-11)
-        if n <= 200:
+        if n <= 200 and eig_ok:
             alphas = [0.0]
             if small or ctx.thorough or rng.random() < 0.5:
                 alphas.append(round(rng.uniform(-0.95, 6.0), 3))
@@ -204,7 +237,7 @@ def _cases(ctx: Ctx):
                 (lambda n=n, r=rho: og.TrefethenStripGC2(n, r)), n >= 3 and rho != 1.1, "TrefethenStripGC2", rtol=1e-9)
         # general versions over a base rule
         for _ in range(2 if small else 1):
-            base = rng.choice(BASES)
+            base = rng.choice(BASES if eig_ok else [b for b in BASES if b not in ("GaussLegendre", "GaussLaguerre")])
             d = rng.choice([1, 5, 9, 9])
             rho = round(rng.uniform(1.02, 4.0), 3)
             gb = "GaussChebyshevType2" if base in ("TrefethenGC2", "TrefethenStripGC2") else base
@@ -226,7 +259,13 @@ def _selfcheck_translation(ctx: Ctx):
     from ..translate import onedgrid as tr
     og = _og()
     rng = ctx.rng
-    series, subst = tr.python_side()
+    try:
+        series, subst = tr.python_side()
+    except tr.Untranslatable as e:
+        # the source left the vocabulary of the translator: the generated definitions no longer describe it.  Reported
+        # here; the constructor comparison and the oracle below still run and look for a concrete failing input.
+        ctx.fail("corr", "gen:translator", f"translator cannot carry the current source: {e}")
+        return
     lines, want, what = [], [], []
     for cls, exprs in series.items():
         for n in list(range(2, 30)) + [rng.randrange(30, 500) for _ in range(6)]:
@@ -308,8 +347,367 @@ def _selfcheck_translation(ctx: Ctx):
                      witness={"op": ln, "source": w, "lean": v})
 
 
+# ----------------------------------------------------------------------------------------------
+# constructor calls as source text: `src` is evaluated with {og, np}; (cls, args) is the canonical
+# reading (Python int / float / class name) that the model line and the reference are built from
+# ----------------------------------------------------------------------------------------------
+PARAM_KW = {"TanhSinh": "delta", "GaussLaguerre": "alpha", "TrefethenCC": "d", "TrefethenGC2": "d",
+            "TrefethenStripCC": "rho", "TrefethenStripGC2": "rho", **{c: "h" for c in STEP[1:]}}
+PARAM_DEFAULT = {"TanhSinh": 0.1, "ExpSinh": 1.0, "GaussLaguerre": 0.0, "TrefethenCC": 9, "TrefethenGC2": 9,
+                 "TrefethenStripCC": 1.1, "TrefethenStripGC2": 1.1, "TrefethenGeneral": 9, "TrefethenStripGeneral": 1.1,
+                 **{c: 0.1 for c in STEP[2:]}}
+
+
+def _gv(pw):
+    return fvec(pw[0]) + " " + fvec(pw[1])
+
+
+def _model_line(cls, n, *par):
+    """Driver line of the constructor `cls(n, *par)` (canonical values; missing parameter = the default of the source)."""
+    n = int(n)
+    if cls in NOARG:
+        return f"C01.make {cls} {n}"
+    if cls in STEP or cls == "TrefethenStripCC":
+        return f"C01.make {cls} {n} {f2b(par[0] if par else PARAM_DEFAULT[cls])}"
+    if cls in GAUSS:
+        return f"C01.make {cls} {n} " + _gv(_gauss_for(cls, n))
+    if cls == "GaussLaguerre":
+        a = float(par[0]) if par else 0.0
+        return f"C01.make GaussLaguerre {n} {f2b(a)} " + _gv(_gauss_for("GaussLaguerre", n, a))
+    if cls == "TrefethenCC":
+        return f"C01.make TrefethenCC {n} {int(par[0]) if par else 9}"
+    if cls == "TrefethenGC2":
+        return f"C01.make TrefethenGC2 {n} {int(par[0]) if par else 9} " + _gv(_gauss_for("TrefethenGC2", n))
+    if cls == "TrefethenStripGC2":
+        return f"C01.make TrefethenStripGC2 {n} {f2b(par[0] if par else 1.1)} " + _gv(_gauss_for("TrefethenStripGC2", n))
+    if cls in ("TrefethenGeneral", "TrefethenStripGeneral"):
+        base = par[0]
+        gb = "GaussChebyshevType2" if base in ("TrefethenGC2", "TrefethenStripGC2") else base
+        pw = _gauss_for(gb, n)
+        if cls == "TrefethenGeneral":
+            return f"C01.make TrefethenGeneral {n} {base} {int(par[1]) if len(par) > 1 else 9} " + _gv(pw)
+        return f"C01.make TrefethenStripGeneral {n} {base} {f2b(par[1] if len(par) > 1 else 1.1)} " + _gv(pw)
+    raise KeyError(cls)
+
+
+def _src(cls, n_src, *par_src):
+    return f"og.{cls}({', '.join([n_src, *par_src])})"
+
+
+def _canon_d(d):
+    """what `d == 1 / 5 / 9` decides for the value d: the integer, or 0 (rejected)"""
+    try:
+        return int(d) if d == int(d) else 0
+    except (TypeError, ValueError):
+        return 0
+
+
+def _compare(ctx, key, label, impl, mod, rtol, elementwise, witness, allow=()):
+    """one constructor result against the model's; -> True iff they agree"""
+    if isinstance(impl, str) and impl in allow:
+        return True
+    if isinstance(impl, str) or isinstance(mod, str):
+        if impl is not mod and impl != mod:
+            ctx.fail("corr", key, f"{label}: implementation {impl if isinstance(impl, str) else 'ok'}, model {mod if isinstance(mod, str) else 'ok'}",
+                     witness=witness)
+            return False
+        return True
+    if (impl[2], impl[3]) != (mod[2], mod[3]):
+        ctx.fail("corr", key, f"{label}: domain {impl[2:]} vs model {mod[2:]}", witness=witness)
+        return False
+    for nm, a, b in (("points", impl[0], mod[0]), ("weights", impl[1], mod[1])):
+        ok, why = _vec_close(a, b, rtol, elementwise)
+        if not ok:
+            ctx.fail("corr", key, f"{label}: {nm} differ, {why}", witness={**witness, "which": nm, "detail": why})
+            return False
+    return True
+
+
+def _tol(cls, n, par):
+    """(rtol, elementwise) of the comparison for the class (same policy as `_cases`)"""
+    if cls in STEP:
+        h = par[0] if par else PARAM_DEFAULT[cls]
+        return (1e-11 if abs(h) * max(abs(n), 1) / 2 <= 6 else 1e-6), True
+    if cls in GAUSS:
+        return 1e-11, False
+    if cls == "GaussLaguerre":
+        return 1e-11, True
+    if "Strip" in cls or "General" in cls:
+        return 1e-9, False
+    return 1e-10, False
+
+
+def _kind_cases(ctx: Ctx):
+    """Classes 2, 4, 6 of the round-2 guide: `npoints` as NumPy integer / bool / float / 0-d array, the extra
+    parameter as NumPy scalar / bool / 0-d array and at the edges of its range, keyword instead of positional.
+    -> list of dict(cls, args, src, line, rtol, elementwise, allow, tag, nontrivial)"""
+    rng = ctx.rng
+    out = []
+
+    def add(cls, args, src, tag, allow=(), nontrivial=True, rtol=None, elementwise=None):
+        r, e = _tol(cls, args[0], args[1:])
+        out.append(dict(cls=cls, args=list(args), src=src, line=_model_line(cls, *args), rtol=rtol or r,
+                        elementwise=e if elementwise is None else elementwise, allow=tuple(allow), tag=tag, nontrivial=nontrivial))
+
+    int_kinds = [("np.int64({})", ()), ("np.int32({})", ()), ("np.intp({})", ()), ("np.int16({})", ()), ("np.array({})", ("value-error",))]
+    float_kinds = [("{}.0", ("type-error", "index-error")), ("np.float64({})", ("type-error", "index-error"))]
+    for cls in ALL26:
+        odd = cls in STEP or cls == "Simpson"
+        n = 2 * rng.randrange(1, 6) + 1 if odd else rng.randrange(2, 12)
+        extra_src, extra = (), ()
+        if cls == "TrefethenGeneral":
+            extra_src, extra = ("og.MidPoint", "5"), ("MidPoint", 5)
+        elif cls == "TrefethenStripGeneral":
+            extra_src, extra = ("og.FejerFirst", "1.3"), ("FejerFirst", 1.3)
+        for m in (5, n):
+            for fmt, allow in int_kinds + float_kinds:
+                add(cls, (m, *extra), _src(cls, fmt.format(m), *extra_src), "npoints:" + fmt.split("(")[0].format("float"), allow)
+        # bool is an int: True == 1
+        add(cls, (1, *extra), _src(cls, "True", *extra_src), "npoints:bool", nontrivial=False)
+        # keyword instead of positional
+        kw = [f"npoints={n}"]
+        if cls in PARAM_KW:
+            kw_par = {"d": 5, "rho": 1.25, "alpha": 0.5}.get(PARAM_KW[cls], 0.25)
+            add(cls, (n, kw_par), _src(cls, *kw, f"{PARAM_KW[cls]}={kw_par!r}"), "keyword")
+            add(cls, (n, kw_par), _src(cls, f"{PARAM_KW[cls]}={kw_par!r}", *kw), "keyword")
+        elif cls == "TrefethenGeneral":
+            add(cls, (n, "Trapezoidal", 5), _src(cls, "d=5", "quadrature=og.Trapezoidal", *kw), "keyword")
+        elif cls == "TrefethenStripGeneral":
+            add(cls, (n, "Trapezoidal", 1.25), _src(cls, "rho=1.25", "quadrature=og.Trapezoidal", *kw), "keyword")
+        else:
+            add(cls, (n,), _src(cls, *kw), "keyword")
+    # extra parameters: NumPy scalar kinds (value exactly representable) and the edges of the admissible range
+    for cls in STEP:
+        for n in (7, 1 if cls != "TanhSinh" else 3):
+            kinds = ["np.float64(0.25)", "np.int64(1)", "True", "np.array(0.25)"]
+            if cls != "TanhSinh":
+                kinds += ["np.float32(0.25)", "np.float16(0.25)"]   # TanhSinh: a float32 step loses precision (listed finding, oracle)
+            for k in kinds:
+                add(cls, (n, float(eval(k, {"np": np}))), _src(cls, str(n), k), "param:kind")
+            for h in (0.5, 1e-8, 2.0, 5.0, 5e-324, 1e-300, 800.0, 0.0, -0.25):   # the moderate ones first (failure cap per key)
+                add(cls, (n, h), _src(cls, str(n), repr(h)), "param:edge", nontrivial=h > 0)
+    for n in (2, 7):
+        for k in ("np.float64(0.5)", "np.int64(2)", "True", "np.array(0.5)"):
+            add("GaussLaguerre", (n, float(eval(k, {"np": np}))), _src("GaussLaguerre", str(n), k), "param:kind")
+        for a in (-0.995, 50.0, -0.999999, -1 + 1e-12, float(np.nextafter(-1.0, 0.0)), -1.0, 170.0, 1000.0):
+            add("GaussLaguerre", (n, a), _src("GaussLaguerre", str(n), repr(a)), "param:edge", nontrivial=a > -1, rtol=1e-9)
+    for cls in ("TrefethenStripCC", "TrefethenStripGC2"):
+        for n in (3, 8):
+            for k in ("np.float64(1.5)", "np.int64(2)", "np.array(1.5)"):
+                add(cls, (n, float(eval(k, {"np": np}))), _src(cls, str(n), k), "param:kind")
+            for rho in (1.02, 10.0, 1.0001, 1e6, 1 + 1e-9, float(np.nextafter(1.0, 2.0)), 1e300, 1.0, 0.5):
+                add(cls, (n, rho), _src(cls, str(n), repr(rho)), "param:edge", nontrivial=rho > 1, rtol=1e-8)
+    for n in (3, 8):
+        add("TrefethenStripGeneral", (n, "MidPoint", 1.0001), _src("TrefethenStripGeneral", str(n), "og.MidPoint", "1.0001"), "param:edge", rtol=1e-8)
+        add("TrefethenStripGeneral", (n, "ClenshawCurtis", 1e6), _src("TrefethenStripGeneral", str(n), "og.ClenshawCurtis", "np.float64(1e6)"), "param:edge", rtol=1e-8)
+    for cls in ("TrefethenCC", "TrefethenGC2"):
+        for k in ("np.int64(5)", "np.int32(9)", "5.0", "np.float64(9.0)", "True", "np.array(5)", "5.5", "'5'", "None", "3", "-9"):
+            add(cls, (6, _canon_d(eval(k, {"np": np}))), _src(cls, "6", k), "param:kind:d", nontrivial=_canon_d(eval(k, {"np": np})) in (1, 5, 9))
+    for k in ("np.int64(5)", "9.0", "True", "5.5", "None"):
+        add("TrefethenGeneral", (6, "FejerFirst", _canon_d(eval(k, {"np": np}))), _src("TrefethenGeneral", "6", "og.FejerFirst", k), "param:kind:d")
+    return out
+
+
+def _large_cases(ctx: Ctx):
+    """very large n for the rules that need no eigenvalue solve (class 4)"""
+    out = []
+    N = 2000
+    for cls in NOARG + ["GaussChebyshev", "GaussChebyshevType2"]:
+        n = N + 1 if cls == "Simpson" else N
+        out.append((cls, (n,)))
+    for cls in STEP:
+        out.append((cls, (N + 1, 0.002 if cls in ("TanhSinh", "LogExpSinh") else 0.004)))
+    out += [("TrefethenCC", (N, 9)), ("TrefethenGC2", (N, 5)), ("TrefethenStripCC", (N, 1.1)), ("TrefethenStripGC2", (N, 1.4)),
+            ("TrefethenGeneral", (N, "Trapezoidal", 9)), ("TrefethenStripGeneral", (N, "MidPoint", 1.1))]
+    if ctx.thorough:
+        out += [("GaussLaguerre", (150, 0.5))]   # (leggauss(2000) alone takes minutes: Gauss-Legendre stays at n <= 400)
+    res = []
+    for cls, args in out:
+        src = _src(cls, *[f"og.{a}" if isinstance(a, str) else repr(a) for a in args])
+        r, e = _tol(cls, args[0], args[1:])
+        res.append(dict(cls=cls, args=list(args), src=src, line=_model_line(cls, *args), rtol=max(r, 1e-10), elementwise=e,
+                        allow=(), tag="large-n", nontrivial=True))
+    return res
+
+
+def _eval_src(og, src):
+    return eval(src, {"og": og, "np": np})
+
+
+def _run_src_cases(ctx: Ctx, cases):
+    og = _og()
+    model = driver_batch([c["line"] for c in cases])
+    for c, ans in zip(cases, model):
+        impl = _impl(lambda: _eval_src(og, c["src"]))
+        mod = _parse(ans)
+        rejected = isinstance(impl, str)
+        ctx.count([c["src"]], nontrivial=c["nontrivial"] and not rejected and c["args"][0] >= 3,
+                  tag=c["tag"] + (":" + impl if rejected else ""))
+        _compare(ctx, f"make:{c['cls']}", c["src"], impl, mod, c["rtol"], c["elementwise"],
+                 {"cls": c["cls"], "args": c["args"], "src": c["src"], "prelude": []}, allow=c["allow"])
+
+
+def _repeat_specs(ctx: Ctx):
+    """the constructor calls of the repeated-construction schedule: every class at two sizes (the small one shared by all
+    classes), parametrised classes with the default and with another parameter"""
+    rng = ctx.rng
+    specs = []
+    for cls in ALL26:
+        odd = cls in STEP or cls == "Simpson"
+        sizes = [7, 2 * rng.randrange(4, 16) + 1 if odd else rng.randrange(8, 33)]
+        for n in sizes:
+            if cls in NOARG or cls in GAUSS:
+                specs.append((cls, (n,)))
+            elif cls in STEP:
+                specs += [(cls, (n,)), (cls, (n, round(rng.uniform(0.05, 0.3), 3)))]
+            elif cls == "GaussLaguerre":
+                specs += [(cls, (n,)), (cls, (n, round(rng.uniform(-0.9, 3.0), 2)))]
+            elif cls in ("TrefethenCC", "TrefethenGC2"):
+                specs += [(cls, (n,)), (cls, (n, rng.choice([1, 5])))]
+            elif cls in ("TrefethenStripCC", "TrefethenStripGC2"):
+                specs += [(cls, (n,)), (cls, (n, round(rng.uniform(1.05, 3.0), 3)))]
+            elif cls == "TrefethenGeneral":
+                specs.append((cls, (n, rng.choice(["GaussChebyshev", "GaussChebyshevType2", "ClenshawCurtis", "MidPoint", "GaussLegendre"]), rng.choice([1, 5, 9]))))
+            else:
+                specs.append((cls, (n, rng.choice(["GaussChebyshev", "GaussChebyshevType2", "FejerFirst", "Trapezoidal", "GaussLegendre"]), round(rng.uniform(1.05, 3.0), 3))))
+    return specs
+
+
+def _spec_src(cls, args):
+    return _src(cls, *[f"og.{a}" if isinstance(a, str) else repr(a) for a in args])
+
+
+def _corr_repeated(ctx: Ctx):
+    """Class 1 and 3 of the round-2 guide (state carried between calls, object identity): every constructor call of
+    `_repeat_specs` is made three times in one process, in three different orders, interleaved with the other classes and
+    the other sizes; each result is compared with the (stateless) model when it is built and once more after the whole
+    schedule; no two live objects may share memory; finally the arrays of an earlier object are overwritten in place and
+    the same call is made again."""
+    og = _og()
+    rng = ctx.rng
+    specs = _repeat_specs(ctx)
+    lines = [_model_line(cls, *args) for cls, args in specs]
+    model = [_parse(a) for a in driver_batch(lines)]
+    order = []
+    for _ in range(3):
+        idx = list(range(len(specs)))
+        rng.shuffle(idx)
+        order += idx
+    built = []     # (spec index, object, position in the schedule)
+    history = []   # constructor sources in call order
+    for pos, k in enumerate(order):
+        cls, args = specs[k]
+        src = _spec_src(cls, args)
+        with warnings.catch_warnings():
+            warnings.simplefilter("ignore")
+            try:
+                g = _eval_src(og, src)
+            except Exception as e:  # every spec is admissible
+                ctx.fail("corr", f"make:{cls}", f"{src} (call {pos} of the repeated schedule) raised {type(e).__name__}: {e}",
+                         witness={"cls": cls, "args": list(args), "src": src, "prelude": _prelude(history, cls)})
+                history.append(src)
+                continue
+        r, e = _tol(cls, args[0], args[1:])
+        impl = (np.asarray(g.points, dtype=float), np.asarray(g.weights, dtype=float), float(g.domain[0]), float(g.domain[1]))
+        nth = sum(1 for kk in order[:pos] if kk == k) + 1
+        ctx.count([src, nth], nontrivial=True, tag=f"repeat:{nth}")
+        _compare(ctx, f"make:{cls}", f"{src}, construction no. {nth} of this call in one process (call {pos} of the schedule)",
+                 impl, model[k], r, e, {"cls": cls, "args": list(args), "src": src, "prelude": _prelude(history, cls), "nth": nth})
+        built.append((k, g, pos))
+        history.append(src)
+    # every object once more, after everything else was built
+    for k, g, pos in built:
+        cls, args = specs[k]
+        src = _spec_src(cls, args)
+        r, e = _tol(cls, args[0], args[1:])
+        impl = (np.asarray(g.points, dtype=float), np.asarray(g.weights, dtype=float), float(g.domain[0]), float(g.domain[1]))
+        ctx.count([src, "recheck", pos], nontrivial=False, tag="repeat:recheck")
+        _compare(ctx, f"make:{cls}", f"{src} built at call {pos}, read again after the later constructions", impl, model[k], r, e,
+                 {"cls": cls, "args": list(args), "src": src, "prelude": history[:pos], "later": history[pos + 1:][:60], "recheck": True})
+    # independent arrays
+    arrays = [(i, nm, np.asarray(getattr(g, nm))) for i, (k, g, pos) in enumerate(built) for nm in ("points", "weights")]
+    bb = np.byte_bounds if hasattr(np, "byte_bounds") else np.lib.array_utils.byte_bounds
+    bounds = sorted((bb(a), i, nm) for i, nm, a in arrays if a.size)
+    cur = None   # the interval reaching furthest to the right so far
+    for b1, i1, n1 in bounds:
+        if cur is not None and b1[0] < cur[0][1]:
+            b0, i0, n0 = cur
+            if np.shares_memory(np.asarray(getattr(built[i0][1], n0)), np.asarray(getattr(built[i1][1], n1))):
+                s0, s1 = _spec_src(*specs[built[i0][0]]), _spec_src(*specs[built[i1][0]])
+                ctx.fail("corr", f"make:{specs[built[i0][0]][0]}", f"{n0} of {s0} (call {built[i0][2]}) and {n1} of {s1} (call {built[i1][2]}) share memory",
+                         witness={"cls": specs[built[i1][0]][0], "args": list(specs[built[i1][0]][1]), "src": s1, "prelude": [s0], "mutate": True})
+        if cur is None or b1[1] > cur[0][1]:
+            cur = (b1, i1, n1)
+    # overwrite the arrays of one object per spec in place, then build the same rule again
+    seen = set()
+    for k, g, pos in built:
+        if k in seen:
+            continue
+        seen.add(k)
+        cls, args = specs[k]
+        src = _spec_src(cls, args)
+        for nm in ("points", "weights"):
+            a = getattr(g, nm)
+            try:
+                a[...] = -7 if a.dtype.kind in "iu" else np.nan
+            except ValueError:
+                pass  # read-only arrays cannot be corrupted through the object
+        with warnings.catch_warnings():
+            warnings.simplefilter("ignore")
+            try:
+                g2 = _eval_src(og, src)
+            except Exception as e:
+                ctx.fail("corr", f"make:{cls}", f"{src} raised {type(e).__name__} after the arrays of an earlier {cls} object were overwritten",
+                         witness={"cls": cls, "args": list(args), "src": src, "prelude": [src], "mutate": True})
+                continue
+        r, e = _tol(cls, args[0], args[1:])
+        impl = (np.asarray(g2.points, dtype=float), np.asarray(g2.weights, dtype=float), float(g2.domain[0]), float(g2.domain[1]))
+        ctx.count([src, "after-mutation"], nontrivial=True, tag="repeat:after-mutation")
+        _compare(ctx, f"make:{cls}", f"{src} built after points/weights of an earlier object of the same call were overwritten in place",
+                 impl, model[k], r, e, {"cls": cls, "args": list(args), "src": src, "prelude": [src], "mutate": True})
+
+
+def _prelude(history, cls):
+    """the earlier constructor calls that can matter for a call of `cls`: same class, its base classes, and the last few"""
+    keep = [h for h in history if f"og.{cls}(" in h or (cls.startswith("Trefethen") and any(b in h for b in ("ClenshawCurtis", "GaussChebyshevType2")))]
+    return (keep + history[-5:])[-40:]
+
+
+def _corr_fejer2_corrected(ctx: Ctx):
+    """The hand-written complete Fejer-2 series (`FejerSecondCorrected`, Lean, not the code): (a) exact on x^k, k <= n-1,
+    against rationals -- the independent reading of its definition; (b) implementation weights + contribution of the
+    missing term (`C01.fejer2missing`) = corrected weights, same nodes -- ties `fejer2_code_weights_defect` to the code."""
+    og = _og()
+    ns = list(range(2, 41)) + sorted({ctx.rng.randrange(41, 300) for _ in range(ctx.n(4, 40))})
+    ans = driver_batch([f"C01.make FejerSecondCorrected {n}" for n in ns] + [f"C01.fejer2missing {n}" for n in ns])
+    for i, n in enumerate(ns):
+        cor = _parse(ans[i])
+        t = Tokens(ans[len(ns) + i])
+        ctx.count(["FejerSecondCorrected", n], nontrivial=n >= 3, tag="fejer2-corrected")
+        if isinstance(cor, str) or t.tok() != "ok":
+            ctx.fail("corr", "fejer2:corrected", f"FejerSecondCorrected({n}): model answered {ans[i][:40]} / {ans[len(ns) + i][:40]}")
+            continue
+        miss = np.array(t.fvec())
+        pts, wts = [float(x) for x in cor[0]], [float(x) for x in cor[1]]
+        for k in range(min(n, 90)):
+            got = math.fsum(w * x**k for w, x in zip(wts, pts))
+            want = Fraction(0) if k % 2 else Fraction(2, k + 1)
+            if not abs(got - float(want)) <= 2e-12 * max(1, n / 64):
+                ctx.fail("corr", "fejer2:corrected", f"hand-written FejerSecondCorrected({n}) does not integrate x^{k}: {got!r} vs {want}",
+                         witness={"n": n, "k": k})
+                break
+        g = og.FejerSecond(n)
+        ok1, why1 = _vec_close(np.asarray(g.points, dtype=float), cor[0], 1e-11, False)
+        ok2, why2 = _vec_close(np.asarray(g.weights, dtype=float) + miss, cor[1], 1e-10, False)
+        if not (ok1 and ok2):
+            ctx.fail("corr", "fejer2:corrected",
+                     f"FejerSecond({n}): implementation + missing term differs from the complete series ({'nodes ' + why1 if not ok1 else 'weights ' + why2})",
+                     witness={"cls": "FejerSecond", "args": [n], "src": f"og.FejerSecond({n})", "prelude": []})
+
+
 def corr(ctx: Ctx):
     _selfcheck_translation(ctx)
+    _corr_fejer2_corrected(ctx)
     cases = _cases(ctx)
     model = driver_batch([c["line"] for c in cases])
     for c, ans in zip(cases, model):
@@ -319,20 +717,11 @@ def corr(ctx: Ctx):
         rejected = isinstance(impl, str)
         ctx.count(c["line"].split()[1:5], nontrivial=c["nontrivial"] and not rejected,
                   tag=c["tag"] + (":" + impl if rejected else ""))
-        key = f"make:{cls}"
-        if isinstance(impl, str) or isinstance(mod, str):
-            if impl is not mod and impl != mod:
-                ctx.fail("corr", key, f"{c['line'][:80]}: implementation {impl if isinstance(impl, str) else 'ok'}, model {mod if isinstance(mod, str) else 'ok'}",
-                         witness={"op": c["line"][:300]})
-            continue
-        if (impl[2], impl[3]) != (mod[2], mod[3]):
-            ctx.fail("corr", key, f"{cls}({n}): domain {impl[2:]} vs model {mod[2:]}")
-        for nm, a, b in (("points", impl[0], mod[0]), ("weights", impl[1], mod[1])):
-            ok, why = _vec_close(a, b, c["rtol"], c["elementwise"])
-            if not ok:
-                ctx.fail("corr", key, f"{' '.join(c['line'].split()[1:5])}: {nm} differ, {why}",
-                         witness={"op": c["line"][:300], "which": nm, "detail": why})
-                break
+        _compare(ctx, f"make:{cls}", " ".join(c["line"].split()[1:5]), impl, mod, c["rtol"], c["elementwise"],
+                 {"op": c["line"][:300], "cls": cls, "n": n})
+    _run_src_cases(ctx, _kind_cases(ctx))
+    _run_src_cases(ctx, _large_cases(ctx))
+    _corr_repeated(ctx)
 
 
 # ----------------------------------------------------------------------------------------------
@@ -369,6 +758,17 @@ def _build(og, cls, *a):
             return None
 
 
+SNIP_INTEGRATE = """import warnings; warnings.filterwarnings('ignore')
+import numpy as np, math
+from grid import onedgrid as og
+g = og.{cls}({n})
+k = {k}
+got = float(g.integrate(g.points ** k))
+want = math.fsum(float(w) * float(x) ** k for w, x in zip(g.weights, g.points))
+assert abs(got - want) <= 1e-13 * max(1.0, abs(want)), f'{cls}({n}).integrate(x^{{k}}) = {{got!r}}, sum w_i x_i^{{k}} = {{want!r}}'
+"""
+
+
 def _oracle_moments(ctx, og, nmax):
     tol = 2e-12
     for cls, deg in INTERP.items():
@@ -380,11 +780,23 @@ def _oracle_moments(ctx, og, nmax):
                 continue
             pts = [float(x) for x in g.points]
             wts = [float(w) for w in g.weights]
+            if n <= 12:
+                # the other observation point of the property: OneDGrid.integrate is the sum the moments are taken with
+                for k in (0, 1, deg(n)):
+                    got = float(g.integrate(g.points ** k))
+                    want = math.fsum(w * x**k for w, x in zip(wts, pts))
+                    if not abs(got - want) <= 1e-13 * max(1.0, abs(want)) and want == want:
+                        ctx.fail("oracle", f"onedgrid.{cls}:integrate", f"{cls}({n}).integrate(x^{k}) = {got!r} but sum w_i x_i^{k} = {want!r}",
+                                 witness={"class": cls, "npoints": n, "k": k}, snippet=SNIP_INTEGRATE.format(cls=cls, n=n, k=k))
+                        break
             for k in range(deg(n) + 1):
                 got = math.fsum(w * x**k for w, x in zip(wts, pts))
                 want = Fraction(0) if k % 2 else Fraction(2, k + 1)
                 if not abs(got - float(want)) <= tol:
-                    ctx.fail("oracle", f"onedgrid.{cls}",
+                    # FejerSecond: the listed finding loses the U-component of degree m* = 2((n+1)//2) - 2 and nothing
+                    # below it (Lean: fejer2_code_exact_below); a failure below m* is a different defect
+                    below = cls == "FejerSecond" and k < 2 * ((n + 1) // 2) - 2
+                    ctx.fail("oracle", f"onedgrid.{cls}" + (":below-known-defect" if below else ""),
                              f"{cls}({n}) does not integrate x^{k} exactly: sum w_i x_i^{k} = {got!r}, integral over [-1,1] = {want} (nominal degree {deg(n)})",
                              witness={"class": cls, "npoints": n, "k": k, "quadrature": got, "exact": str(want)},
                              snippet=SNIP_MOMENT.format(cls=cls, n=n, k=k, tol=tol))
@@ -691,17 +1103,273 @@ def _oracle_trefethen(ctx, og, rng, nmax, reps):
                 break
 
 
+def _ref():
+    return importlib.import_module("harness.props.c01_ref")
+
+
+def _ref_snippet(cls, args, src, prelude, mutate=False, known_defect=True):
+    """self-contained replay: the reference module, the earlier constructions, the call, the check"""
+    text = (Path(__file__).with_name("c01_ref.py")).read_text()
+    body = ["", "# --- replay ---"]
+    for i, h in enumerate(prelude):
+        body.append(f"_g{i} = {h}")
+        if mutate:
+            body.append(f"for _a in (_g{i}.points, _g{i}.weights):\n    try:\n        _a[...] = -7 if _a.dtype.kind in 'iu' else np.nan\n    except ValueError:\n        pass")
+    body.append(f"g = {src}")
+    body.append(f"check({cls!r}, {tuple(args)!r}, g, fejer2_known_defect={known_defect})")
+    return text + "\n".join(body) + "\n"
+
+
+def _snippet_fails(snippet):
+    """run a replay snippet in a fresh interpreter (same library tree); True iff it raises"""
+    import os
+    import subprocess
+    import sys
+    env = dict(os.environ)
+    if os.environ.get("GRID_REPO"):
+        env["PYTHONPATH"] = os.path.join(os.environ["GRID_REPO"], "src") + os.pathsep + env.get("PYTHONPATH", "")
+    try:
+        return subprocess.run([sys.executable, "-W", "ignore", "-c", snippet], env=env, cwd="/", capture_output=True, timeout=300).returncode != 0
+    except Exception:
+        return True
+
+
+def _ref_fail(ctx, cls, args, src, prelude, g=None, mutate=False, suffix=""):
+    """evaluate C01 on the object `g` (or on a fresh `src`) against the reference; report a violation.  The replay snippet
+    (reference + the constructions that preceded + the call) is tried in a fresh interpreter first: state left behind in
+    *this* process by earlier stages may not be re-created by the prelude, in which case the variant that overwrites the
+    arrays of the earlier objects in place is tried, and the report says which one reproduces."""
+    og = _og()
+    key = f"onedgrid.{cls}" + (":beyond-known-defect" if cls == "FejerSecond" else "") + suffix
+    if sum(1 for f in ctx.failures if f.kind == "oracle" and f.key == key) >= 3:
+        return False
+    what = None
+    try:
+        with warnings.catch_warnings():
+            warnings.simplefilter("ignore")
+            if g is None:
+                g = _eval_src(og, src)
+            _ref().check(cls, tuple(args), g)
+    except AssertionError as e:
+        what = str(e)
+    except (ValueError, TypeError, RuntimeError, IndexError) as e:
+        what = f"{src} raised {type(e).__name__}: {e} although its arguments are admissible"
+    if what is None:
+        return False
+    snippet = _ref_snippet(cls, args, src, prelude, mutate)
+    note = ""
+    if not _snippet_fails(snippet):
+        alt = _ref_snippet(cls, args, src, [src], True)
+        if not mutate and _snippet_fails(alt):
+            snippet, mutate, prelude = alt, True, [src]
+            note = " [reproduces in a fresh process once points/weights of an earlier object of the same call are overwritten in place]"
+        else:
+            note = " [observed in the checking process only: the replay snippet does not re-create the state]"
+    if prelude:
+        what += f" [after {len(prelude)} earlier construction(s): {'; '.join(prelude[-3:])}]"
+    ctx.fail("oracle", key, what + note,
+             witness={"class": cls, "args": list(args), "call": src, "earlier_calls": prelude[-40:], "arrays_overwritten": mutate},
+             snippet=snippet)
+    return True
+
+
+def _admissible(cls, args):
+    n = args[0]
+    if not isinstance(n, int) or n < (1 if cls in STEP[1:] + ["GaussChebyshevType2", "TrefethenGC2", "TrefethenStripGC2"] else 2):
+        return False
+    if (cls in STEP or cls == "Simpson") and n % 2 == 0:
+        return False
+    if cls == "TanhSinh" and n < 3:
+        return False
+    par = args[1:]
+    if cls in STEP and par and not (0 < par[0] and par[0] * n / 2 <= 6):
+        return False
+    if cls == "GaussLaguerre" and par and not (-0.999 <= par[0] <= 50):   # closer to -1 SciPy's nodes are ill-conditioned
+        return False
+    if cls in ("TrefethenCC", "TrefethenGC2") and par and par[0] not in (1, 5, 9):
+        return False
+    if cls in ("TrefethenStripCC", "TrefethenStripGC2") and par and not (1.02 <= par[0] <= 1e3):
+        return False
+    if cls == "TrefethenGeneral" and (args[1] not in BASES or (len(args) > 2 and args[2] not in (1, 5, 9))):
+        return False
+    if cls == "TrefethenStripGeneral" and (args[1] not in BASES or (len(args) > 2 and not (1.02 <= args[2] <= 1e3))):
+        return False
+    if cls.endswith("General") and args[1] in STEP + ["Simpson"] and n % 2 == 0:
+        return False
+    if cls.endswith("General") and args[1] in STEP + ["UniformInteger", "GaussLaguerre"]:
+        return False    # base rule not on [-1, 1] (or saturating): the transformed rule has no reference
+    return n <= 2100
+
+
+def oracle_at(ctx: Ctx, failure):
+    """Evaluate the property itself at the constructor call on which model and implementation disagreed (with the
+    constructions that preceded it in the same process)."""
+    w = failure.witness or {}
+    if not isinstance(w, dict) or failure.kind != "corr":
+        return
+    if "src" in w and "cls" in w:
+        cls, args, src, prelude = w["cls"], [a for a in w["args"]], w["src"], list(w.get("prelude", []))
+    elif "op" in w and str(w["op"]).startswith("C01.make "):
+        t = str(w["op"]).split()
+        cls, n = t[1], int(t[2])
+        try:
+            if cls in NOARG + GAUSS:
+                args = [n]
+            elif cls in STEP or cls in ("TrefethenStripCC", "TrefethenStripGC2", "GaussLaguerre"):
+                args = [n, b2f(t[3])]
+            elif cls in ("TrefethenCC", "TrefethenGC2"):
+                args = [n, int(t[3])]
+            elif cls == "TrefethenGeneral":
+                args = [n, t[3], int(t[4])]
+            elif cls == "TrefethenStripGeneral":
+                args = [n, t[3], b2f(t[4])]
+            else:
+                return
+        except (ValueError, IndexError):
+            return
+        src, prelude = _spec_src(cls, args), []
+    else:
+        return
+    args = [a if isinstance(a, str) else (int(a) if float(a) == int(a) and not isinstance(a, float) else a) for a in args]
+    if not _admissible(cls, args):
+        return
+    mutate = bool(w.get("mutate"))
+    if w.get("recheck"):
+        # an earlier object changed after later constructions: rebuild the history, then look at the first object again
+        og = _og()
+        later = list(w.get("later", []))
+        try:
+            with warnings.catch_warnings():
+                warnings.simplefilter("ignore")
+                for h in prelude:
+                    _eval_src(og, h)
+                g = _eval_src(og, src)
+                for h in later:
+                    _eval_src(og, h)
+        except Exception:
+            return
+        _ref_fail(ctx, cls, args, src, prelude, g=g, suffix=":changed-by-later-construction")
+        return
+    if mutate:
+        og = _og()
+        try:
+            with warnings.catch_warnings():
+                warnings.simplefilter("ignore")
+                for h in prelude:
+                    g0 = _eval_src(og, h)
+                    for a in (g0.points, g0.weights):
+                        try:
+                            a[...] = -7 if a.dtype.kind in "iu" else np.nan
+                        except ValueError:
+                            pass
+        except Exception:
+            return
+        _ref_fail(ctx, cls, args, src, prelude, mutate=True)
+        return
+    # the process already holds whatever state the earlier calls left behind; the snippet re-creates it with the prelude
+    _ref_fail(ctx, cls, args, src, prelude)
+
+
+def _oracle_repeated(ctx, og, rng):
+    """The property on the *third* construction of every rule in one process (state carried between calls), the other rules
+    and another size in between."""
+    specs = []
+    for cls in ALL26:
+        n = 7 if (cls in STEP or cls == "Simpson") else rng.choice([6, 7, 8])
+        if cls == "TrefethenGeneral":
+            specs.append((cls, (n, rng.choice(["GaussChebyshev", "GaussChebyshevType2", "MidPoint"]), 5)))
+        elif cls == "TrefethenStripGeneral":
+            specs.append((cls, (n, rng.choice(["GaussChebyshev", "GaussChebyshevType2", "FejerFirst"]), 1.3)))
+        else:
+            specs.append((cls, (n,)))
+    history = []
+    with warnings.catch_warnings():
+        warnings.simplefilter("ignore")
+        for rnd in range(2):
+            order = list(specs)
+            rng.shuffle(order)
+            for cls, args in order:
+                try:
+                    _eval_src(og, _spec_src(cls, args))
+                    if rnd == 0:
+                        _eval_src(og, _spec_src(cls, (args[0] + 2, *args[1:])))
+                except Exception:
+                    pass
+                history.append(_spec_src(cls, args))
+    for cls, args in specs:
+        src = _spec_src(cls, args)
+        _ref_fail(ctx, cls, list(args), src, [src, _spec_src(cls, (args[0] + 2, *args[1:])), src])
+    # the arrays of an object belong to it: overwrite them, build the same rule again
+    for cls, args in specs:
+        src = _spec_src(cls, args)
+        try:
+            with warnings.catch_warnings():
+                warnings.simplefilter("ignore")
+                g0 = _eval_src(og, src)
+                for a in (g0.points, g0.weights):
+                    try:
+                        a[...] = -7 if a.dtype.kind in "iu" else np.nan
+                    except ValueError:
+                        pass
+        except Exception:
+            continue
+        _ref_fail(ctx, cls, list(args), src, [src], mutate=True)
+
+
+SNIP_F32 = """import warnings; warnings.filterwarnings('ignore')
+import numpy as np
+from grid import onedgrid as og
+a = {a}
+b = {b}
+dp = float(np.max(np.abs(a.points - b.points))); dw = float(np.max(np.abs(a.weights - b.weights) / np.abs(b.weights)))
+assert dp <= 5e-6 and dw <= 5e-6, f'same parameter value given as NumPy float32 scalar: nodes differ by {{dp:.2e}}, weights by {{dw:.2e}} (relative) from the binary64 call'
+"""
+
+
+def _oracle_float32(ctx, og):
+    """An extra parameter given as a NumPy float32 scalar holding an exactly representable value must give the rule of the
+    same value in binary64 (class 2).  TanhSinh.delta, GaussLaguerre.alpha and the strip parameter rho do not."""
+    jobs = [(c, 7, "0.25") for c in STEP] + [("GaussLaguerre", 7, "0.5"), ("TrefethenStripCC", 7, "1.5"), ("TrefethenStripGC2", 7, "1.5"),
+                                             ("TrefethenStripGeneral", 7, "og.MidPoint, 1.5")]
+    for cls, n, val in jobs:
+        val32 = val.replace("1.5", "np.float32(1.5)").replace("0.25", "np.float32(0.25)").replace("0.5", "np.float32(0.5)") if "og." in val else f"np.float32({val})"
+        a_src, b_src = f"og.{cls}({n}, {val32})", f"og.{cls}({n}, {val})"
+        with warnings.catch_warnings():
+            warnings.simplefilter("ignore")
+            try:
+                a, b = _eval_src(og, a_src), _eval_src(og, b_src)
+            except Exception as e:
+                ctx.info(f"out of scope: {a_src} raised {type(e).__name__}: {e}")
+                continue
+        dp = float(np.max(np.abs(a.points - b.points)))
+        dw = float(np.max(np.abs(a.weights - b.weights) / np.abs(b.weights)))
+        if dp > 1e-12 or dw > 1e-12:
+            ctx.info(f"{a_src}: single-precision parameter propagates: nodes differ by {dp:.1e}, weights by {dw:.1e} (relative) from {b_src}")
+        # scope decision (DESIGN 8.3): a parameter handed over in single precision may give the rule to
+        # single precision ("up to rounding" of the precision the caller chose); anything worse is a failure
+        if not (dp <= 5e-6 and dw <= 5e-6):
+            ctx.fail("oracle", "onedgrid.float32-parameter",
+                     f"{a_src}: nodes differ by {dp:.2e} and weights by {dw:.2e} (relative) from {b_src} although the parameter value is the same",
+                     witness={"class": cls, "call": a_src, "reference_call": b_src, "max_node_diff": dp, "max_rel_weight_diff": dw},
+                     snippet=SNIP_F32.format(a=a_src, b=b_src))
+
+
 def oracle(ctx: Ctx, budget: str):
     """The property on the implementation: exact moments against rationals / mpmath, documented nodes and
     weights, weight = step x derivative of the node map (mpmath differentiation), order and domain."""
     og = _og()
     large = budget == "large" or ctx.thorough
     nmax = 64
+    _oracle_repeated(ctx, og, ctx.rng)      # first: its failures carry the constructions that precede them
     _oracle_moments(ctx, og, nmax)
     _oracle_weighted(ctx, og, nmax, ctx.rng)
     _oracle_closed(ctx, og, ctx.rng, nmax if large else 40)
     _oracle_subst(ctx, og, ctx.rng, nmax, large)
     _oracle_trefethen(ctx, og, ctx.rng, 40, 12 if large else 3)
+    # the listed Fejer-2 finding is "complete sine series minus its last term": anything else is a new defect
+    for n in range(2, nmax + 1):
+        _ref_fail(ctx, "FejerSecond", [n], f"og.FejerSecond({n})", [])
+    _oracle_float32(ctx, og)
     # rejected sizes
     for cls in ALL26:
         if cls in ("TrefethenGeneral", "TrefethenStripGeneral"):
